@@ -253,9 +253,18 @@ def run_(case, ctx):
         snapshot = {k: {xy: set(cs) for xy, cs in v.items()}
                     for k, v in amap.items()}
         try:
-            mc.load_application(amap, app_id=app_id, n_tries=case["n_tries"],
-                                wait=case["wait"],
-                                use_count=case["use_count"])
+            if len(amap) == 1 and (case["n_tries"] + len(images[0])) % 3 == 0:
+                # the other documented call form: file name, then targets
+                ctx.hit("filename_and_targets_form")
+                mc.load_application(names[0], amap[names[0]], app_id=app_id,
+                                    n_tries=case["n_tries"],
+                                    wait=case["wait"],
+                                    use_count=case["use_count"])
+            else:
+                mc.load_application(amap, app_id=app_id,
+                                    n_tries=case["n_tries"],
+                                    wait=case["wait"],
+                                    use_count=case["use_count"])
             outcome, err = "returned", None
         except r.mcm.SpiNNakerLoadingError as e:
             outcome, err = "loading-error", e
